@@ -127,7 +127,7 @@ def _rewrite_strings(x, fn):
 
 
 def _token_rx(names):
-    return re.compile(r"(?<![A-Za-z0-9_:@])(%s)(?![A-Za-z0-9_])" % "|".join(sorted(map(re.escape, names), key=len, reverse=True)))
+    return re.compile(r"(?<![A-Za-z0-9_@])(?<!::)(%s)(?![A-Za-z0-9_])" % "|".join(sorted(map(re.escape, names), key=len, reverse=True)))
 
 
 # ------------------------------------------------------------------------------------------------
